@@ -342,7 +342,7 @@ def run(ctx, lean, findings):
         one_case(ctx, drv, case, rng.choice(FMTS), rng.choice(MODES), do_parsed=(rng.random() < 0.33), do_modes=(rng.random() < 0.25))
     cyclic_note(ctx)
     for f in findings:
-        if f.get('status') == 'open' and f.get('replay'):
+        if f.get('property') == PROP and f.get('status') == 'open' and f.get('replay'):
             if replay_input(ctx, f['replay'], os.path.join(ctx.tmp, 'kf_' + f['id'])):
                 ctx.known(f['id'], f['what'])
             else:
